@@ -11,7 +11,7 @@ RULE = ('start points lat -90..90 (poles, equator), azimuths 0..360 incl. cardin
         'GRS80/WGS84/ANS/Intl24/random ellipsoids (1/f 280..320); float and five angle classes.  vincdir judged against '
         'geod_exact.direct: end point within 1 mm (chord), reverse azimuth within 1e-8 deg when the end point is > 1 deg from a '
         'pole; angle-class calls compared with the float call.  4 % of the cases are preceded by one or two calls the property does not speak about (nearly antipodal or antipodal pairs, latitudes beyond the poles, NaN, a string; distances beyond half the circumference): not judged, exceptions swallowed, but the judged call after them must be as right as ever.  distinct = ellipsoid x family x |lat| band x azimuth quadrant x '
-        'distance decade x argument type')
+        'distance decade x argument type Lines of a nanometre to a millimetre at middle and high latitude are a class of their own.')
 ASSUMPTIONS = ['geod_exact (vmon/oracles/geod.py), re-validated each shard against Karney GeodTest line 1, the GDA technical '
                'manual line, an ODE integration of the geodesic equations and mpmath']
 N = {'quick': 1500, 'thorough': 25000}
